@@ -54,6 +54,11 @@ def fixed_cases(tier):
     for cls in ("extrudedring", "cylinder", "elbow", "shell"):
         for k in range(3 if tier == "quick" else 15):
             out.append({"cls": cls, "seed": 3 * (9001 + 7 * k), "chop": ["count", "size"][k % 2]})
+    for k in range(3 if tier == "quick" else 15):
+        out.append({"cls": "shell", "seed": 3 * (9001 + 7 * k) + 1, "chop": ["count", "size"][k % 2]})
+        out.append({"cls": "wedge", "seed": 2 * (4001 + 3 * k), "chop": ["count", "size"][k % 2]})
+        for cls in ("ring:chain", "ring:expand", "ring:contract"):
+            out.append({"cls": cls, "seed": 2 * (5001 + 5 * k), "chop": "count"})
     return out
 
 
@@ -101,6 +106,19 @@ def build(case, cb):
             ro = o - fr[1] * rng.uniform(3, 5)
             op = cb.Revolve(cb.Face(base), rng.uniform(0.3, 1.2), list(fr[0] * 2), list(ro))
             info["axis"] = (ro, fr[0])
+        elif cls == "wedge" and case["seed"] % 2 == 0:
+            # two neighbouring wedges made from one face object, the usual way: Wedge(face), Wedge(face.copy().translate(...))
+            x0, y0 = rng.uniform(-2, 2), rng.uniform(0.5, 2)
+            face = cb.Face([[x0, y0, 0], [x0 + 1.5, y0, 0], [x0 + 1.5, y0 + 1, 0], [x0, y0 + 1, 0]])
+            ang = rng.uniform(0.03, 0.2)
+            w1 = cb.Wedge(face, ang)
+            w2 = cb.Wedge(face.copy().translate([1.5, 0, 0]), ang)
+            for w in (w1, w2):
+                w.chop(0, **kw())
+            w1.chop(1, **kw())
+            info["detail"] = "two-from-one-face"
+            info["expect_vertices"] = 12
+            return [w1, w2], info
         else:
             op, _ = c09.make_entity({"group": "op", "kind": cls, "seed": case["seed"]}, cb)
         for a in range(3):
@@ -180,6 +198,15 @@ def build(case, cb):
         sh.chop(**kw(0.3))
         info["detail"] = f"ring-{n}"
         return [ring, sh], info
+    if cls == "shell" and case["seed"] % 3 == 1:
+        # a shell over the end cap and the wall of a cylinder: at the rim the faces meet the averaged normal at unequal angles
+        cyl = cb.Cylinder(list(a1), list(a2), list(rp))
+        chop3(cyl)
+        faces = [op.get_face("top") for op in cyl.operations] + [op.get_face("right") for op in cyl.shell]
+        sh = cb.Shell(faces, rng.uniform(0.1, 0.25) * r)
+        sh.chop(**kw(0.3))
+        info["detail"] = "cylinder-cap+wall"
+        return [cyl, sh], info
     if cls == "shell":
         box = cb.Box(list(o), list(o + np.array([rng.uniform(0.6, 1.5) for _ in range(3)])))
         for a in range(3):
@@ -305,6 +332,12 @@ def build(case, cb):
     ring = cb.ExtrudedRing(list(a1), list(a2), list(rp), ri, n_segments=n)
     chop3(ring)
     info["detail"] = n
+    if case["seed"] % 2 == 0:
+        # the source ring is moved as a whole before another shape is derived from it
+        D = fr[0] * rng.uniform(-1, 1) + fr[1] * rng.uniform(-1, 1) + fr[2] * rng.uniform(-2, 2)
+        ring.translate(list(D))
+        a1, a2, rp = a1 + D, a2 + D, rp + D
+        info["detail"] = f"{n}-moved"
     if cls == "ring:chain":
         sf = rng.random() < 0.4
         sf = bool(case.get("start_face", sf))
